@@ -46,6 +46,7 @@ def run(ck, fb):
     from rules.c02 import r02h
     r02h(ck, fb, 'R04i')
     r04j(ck, fb)
+    r04k(ck, fb)
 
 
 def r04a(ck, fb):
@@ -362,3 +363,40 @@ def r04j(ck, fb):
         ok = any(cfg.dominates_blocks(b, {w.bb}, s0.bb) for w in wa)
         ck.require(ok, 'R04j', 'init:header-before-preallocation', s0.where(),
                    'the new log file is given its preallocated length before the header is written')
+
+
+def r04k(ck, fb, R='R04k'):
+    ck.rule(R, 'recovery counts every complete record it scanned, whatever ends the scan: in move_to_index_by_count every (cursor, count) result that '
+               'is reachable after a record was consumed carries the loop counter in its count (zero terminator, requested count reached, or plain '
+               'end of file). strip_log_to shortens the file to exactly the last kept record before it restores the preallocated length; a kill in '
+               'between leaves no terminator, and an end-of-file exit that drops the counter forgets up to 127 acknowledged entries')
+    LIM = 'rnacos::raft::filestore::raftlog::LogInnerManager::'
+    b = ck.main(LIM + 'move_to_index_by_count', R)
+    if not b:
+        return
+    from rn.facts import op_place, pl_local, pl_proj, rv_operands
+    nm = b.calls(r'MessageBufReader::next_message_vec$')
+    ck.floor(R, 'consumption sites', len(nm), 1)
+    counters = []
+    for (i, j, st) in b.stmts():
+        rv = st.get('rv')
+        if rv and rv['k'] == 'bin' and rv['op'] in ('Add', 'AddWithOverflow') and 'c' in rv['b'] and str(rv['b']['c'].get('v')) == '1':
+            pl = op_place(rv['a'])
+            if pl is not None and not pl_proj(pl):
+                counters.append(pl_local(pl))
+    tc = Taint(b, local_src=counters)
+    n = 0
+    for (i, j, st) in b.stmts():
+        rv = st.get('rv')
+        if not rv or rv['k'] != 'agg' or rv.get('ak') != 'tuple' or len(rv['ops']) != 2:
+            continue
+        if b.local_ty(st['d']) != '(u64, u64)' if isinstance(st.get('d'), int) else True:
+            continue
+        after = any(i in cfg.reach_from(b, [s0.bb]) for s0 in nm)
+        if not after:
+            continue
+        n += 1
+        ck.require(tc.op_tainted(rv['ops'][1]), R, 'move_to_index_by_count:counts-scanned-records', b.where(i),
+                   'a result reachable after records were consumed reports a count without them: 10 records, strip_log_to(6), kill between the two '
+                   'set_len calls (file ends at the last kept record) -> reopen finds 0 entries instead of 6')
+    ck.floor(R, 'results after consumption', n, 2)
